@@ -9,6 +9,9 @@ CLAIMED = {
  "C06": ("route table extraction from main.main SSA + reachability + guard-fact dataflow per (route, protected sink); reviewed mask table; CSRF / deny-list / CA-separation dominance rules",
          "For every service-mux route extracted at check time and every protected sink reachable from it, the credential fact required by the route's kind dominates the sink on all paths; admission masks equal a reviewed reference; every success return of checkAuth is preceded by the CSRF test; keymaster-signed chains pass the deny list and the role-CA separation. Structural, all paths, current source.",
          "Sink table and route-kind table are part of the trusted base (keyed by resolved objects, one reason each); new routes default to the strictest kind. Trusts crypto/tls and net/http.", "DESIGN.md §3 C06"),
+ "C03": ("symbolic bound dataflow: comparison facts on CFG edges + transitive <= prover (constants and SSA values, no concrete values); provenance of validity-field stores; lower-bound obligation at unsigned conversions",
+         "At the three issuing calls of the certificate handler the duration is proven <= 24 h, <= time.Until(authInfo.IssuedAt+24 h) and >= 0 on every path; in every issuing library function the validity fields are now / now+D with D exactly the bounded parameter or a constant within the cap (45 d automation, 24 h cloud role); every duration-to-unsigned conversion is dominated by duration >= 0.",
+         "Trusts time package semantics (Until, Add) and go/ssa. Bounds are symbolic, for all inputs; the clock is not modelled.", "DESIGN.md §3 C03"),
  "C04": ("who-may-call rules for verification APIs, producer/consumer agreement on kind discriminators (struct tags and constants), dominance of honour points by kind / issuer / audience / not-before / expiry tests",
          "For each of the five JWTClaims consumers: verification cannot be skipped, only published keys and their asymmetric algorithms are accepted, every honour point is dominated by the kind test (whose (json key, constant) pair no other producer emits), by issuer/audience/nbf tests where required, and by a comparison of the signed expiry with the clock. All paths, current source.",
          "Trusts go-jose for signatures and algorithm enforcement. Honour points are success returns, minting calls, identity lookups and response bodies after verification.", "DESIGN.md §3 C04"),
